@@ -61,7 +61,8 @@ def tellPending (s : State σ P L) (i : Nat) (x : P) : State σ P L :=
 /-- `remove_unfinished()` -/
 def removeUnfinished (s : State σ P L) : State σ P L :=
   { s with kids := s.kids.map C.removeUnfinished,
-           askCache := s.kids.map (fun _ => none), plossC := s.kids.map (fun _ => none) }
+           askCache := s.kids.map (fun _ => none), lossC := s.kids.map (fun _ => none),
+           plossC := s.kids.map (fun _ => none) }
 
 /-- `_losses(real)`: fills the cache, returns the list -/
 def losses (s : State σ P L) (real : Bool) : List L × State σ P L :=
